@@ -126,7 +126,9 @@ def _gen_des(rng, cfg, max_dt, t0, long):
     if rng.random() < 0.15:
         enabled = {k: False for k in enabled}  # fault-free configuration
     rate = {k: (rng.uniform(0.02, {"drop": 0.3, "duplicate": 0.2, "burst": 0.1, "stale": 0.15, "future": 0.1, "stall": 0.1, "clock_jump": 0.1, "zero_tick": 0.1, "dup_tick": 0.1, "missing_control": 0.05}.get(k, 0.2)) if v else 0.0) for k, v in enabled.items()}
-    period_out = rng.choice([0.1, 0.25, 0.5, 1.0, 1 / 30, 0.02]) * rng.choice([1, 1, 1, 3])
+    # consumer period relative to the step: from sub-step ticks to a few hundred steps per tick (stalls multiply it)
+    period_out = max_dt * rng.choice([0.3, 1.0, 2.5, 2.5, 7.0, 7.0, 30.0, 100.0]) if rng.random() < 0.7 else rng.choice([0.1, 0.25, 0.5, 1.0, 1 / 30, 0.02])
+    period_out = min(period_out, 300 * max_dt)
     n_ticks = rng.randint(4, 40 if long else 14)
     sensors = []
     for s in range(cfg["n_sensors"]):
@@ -511,8 +513,9 @@ def check_leg(schedule, plan, ticks, leg, res: Result):
 
 def check_group(res, leg, i, g, t_from, t_to, dts, max_dt, seen_times):
     delta = t_to - t_from
-    fd = [Fraction(d) for d in dts]
-    total = sum(fd, Fraction(0))
+    counts = collections.Counter(dts)
+    fd = [Fraction(d) for d in counts]  # distinct step values (a propagation repeats max_dt many times)
+    total = sum((Fraction(d) * n for d, n in counts.items()), Fraction(0))
     direction = "fwd" if delta > 0 else "bwd" if delta < 0 else "zero"
     mdt = float(max_dt)
     P = res.stats if leg == "py" else collections.Counter()
